@@ -18,6 +18,7 @@ import (
 	"github.com/canopy-network/canopy/bft"
 	"github.com/canopy-network/canopy/lib"
 	"github.com/canopy-network/canopy/lib/crypto"
+	"google.golang.org/protobuf/proto"
 )
 
 // ---- events --------------------------------------------------------------------------
@@ -580,6 +581,7 @@ func (w *world) send(from, to int, data []byte, desc string) {
 	if !off && w.cfg.corruptPct > 0 && c.T.Chance(w.cfg.corruptPct, 1000) {
 		bad, kind := simkit.MutateBytes(c.T, data)
 		c.Fault("msg_corrupted_" + kind)
+		w.nestedUnknown(data)
 		w.push(&event{at: w.now() + lat + time.Duration(c.T.Intn(w.cfg.phaseMS))*time.Millisecond, kind: "msg", to: to, from: from, data: bad, desc: desc + "(corrupted:" + kind + ")"})
 	}
 	if !off && w.cfg.dupPct > 0 && c.T.Chance(w.cfg.dupPct, 1000) {
@@ -923,4 +925,49 @@ func sortedCopy(xs []string) []string {
 	out := append([]string(nil), xs...)
 	sort.Strings(out)
 	return out
+}
+
+// nestedUnknown: the certificates carried by an honest consensus message, re-encoded with ONE unknown
+// field inside a sub-message (any depth, elements of repeated fields included): the decoder of the
+// types lib.Unmarshal treats as critical (Block, Transaction, QuorumCertificate) has to refuse it (C19).
+// Decided at send time with no event pushed and no tape position consumed. (bft.Message and
+// lib.BlockMessage envelopes themselves are not in lib.Unmarshal's critical set; see DESIGN A.5.)
+func (w *world) nestedUnknown(data []byte) {
+	c := w.c
+	m := new(bft.Message)
+	if proto.Unmarshal(data, m) != nil {
+		return
+	}
+	for _, qc := range []*lib.QuorumCertificate{m.Qc, m.HighQc} {
+		if qc == nil {
+			continue
+		}
+		honest, e := lib.Marshal(qc)
+		if e != nil {
+			continue
+		}
+		bad, path := simkit.NestedUnknown(honest, new(lib.QuorumCertificate))
+		if bad == nil || bytes.Equal(bad, honest) {
+			continue
+		}
+		c.Fault("certificate_unknown_field_nested")
+		var err error
+		func() {
+			defer func() {
+				if r := recover(); r != nil {
+					if simkit.IsSimPanic(r) {
+						panic(r)
+					}
+					if _, ok := r.(simkit.FatalLog); ok {
+						panic(r)
+					}
+					c.ReportFor("C19", "no-panic", "certificate-decode-panic", fmt.Sprintf("lib.Unmarshal(QuorumCertificate) panicked: %v", r))
+				}
+			}()
+			err = lib.Unmarshal(bad, new(lib.QuorumCertificate))
+		}()
+		if err == nil {
+			c.ReportFor("C19", "decoder-rejects-unknown-fields", "nested-unknown-field-accepted:certificate", fmt.Sprintf("lib.Unmarshal accepted a certificate whose sub-message %s carries unknown field 1997", path))
+		}
+	}
 }
